@@ -29,6 +29,68 @@ MUTATORS = {
 }
 
 
+
+def engine_txn_pairing(prog, r, with_epoch=True):
+    """the engine side of the build transaction (shared with C05: a cancelled build that leaves the transaction open poisons every later build):
+    a successful buildStarted is followed on every path by the registration of the scope guard that calls buildComplete, the guard runs on every
+    exit, and the work loop and the epoch write sit between the two."""
+    f = E.efn(prog, "build")
+    bf = BranchFacts(f, kill="assign")
+    bs = f.calls("BuildDB::buildStarted")
+    ex = f.calls(E.ENGINE + "::executeTasks")
+    sci = f.calls("BuildDB::setCurrentIteration")
+    if len(bs) != 1 or len(ex) != 1 or len(sci) > 1:
+        raise AnalysisBroken("build(): buildStarted=%d executeTasks=%d setCurrentIteration=%d" % (len(bs), len(ex), len(sci)))
+    # the defer that calls buildComplete
+    defer = None
+    for d in f.nodes:
+        if d.get("k") == "decl":
+            for v in d["vars"]:
+                if "ScopeDefer" in f.db_types[v["ct"]] and "init" in v:
+                    for x in f.nodes[v["init"]].walk():
+                        if x.get("k") == "lambda":
+                            lf = prog.lambda_fn(x)
+                            if lf is not None and lf.calls("BuildDB::buildComplete"):
+                                defer = d
+    r.check(defer is not None, "build|deferred-buildComplete", "", "no scope guard commits the transaction", f)
+    if defer is not None:
+        dp = cfg.pos_of(f, defer)
+        bsp = cfg.pos_of(f, bs[0])
+        # between a successful buildStarted and the registration of the guard there is no way out
+        legit = set()
+        for x in f.nodes:
+            if x.get("k") == "return" and any((a == "result" or "buildStarted(" in a) and not pol for a, pol in (bf.at_node(x) or frozenset())) and \
+                    cfg.path_exists(f, dp, lambda p, e, xp=cfg.pos_of(f, x): p == xp) is None:
+                legit.add(cfg.pos_of(f, x))       # `if (!result) return` right after buildStarted failed
+        w = cfg.path_exists_feasible(f, bsp, cfg.is_exit, avoid=lambda p, e: p == dp or p in legit)
+        ok = w is None and len(legit) == 1
+        r.check(ok, "build|guard-registered-right-after-start", "", "a path leaves build() after a successful buildStarted without the commit guard", f, defer,
+                path=str(w))
+        # the work loop and the epoch write happen under the guard
+        for c, nm in ((ex[0], "executeTasks"),) + (((sci[0], "setCurrentIteration"),) if sci and with_epoch else ()):
+            r.check(cfg.dominated_by(f, cfg.pos_of(f, c), lambda p, e: p == dp)[0], "build|%s-inside-transaction" % nm, "",
+                    "%s reachable outside the build transaction" % nm, f, c)
+        if not sci and with_epoch:
+            # the epoch write moved out of build()'s body: inside the transaction only if the commit guard performs it before buildComplete
+            where = []
+            for d_, lf in E.scope_guards(prog, f):
+                cs, bc = lf.calls("BuildDB::setCurrentIteration"), lf.calls("BuildDB::buildComplete")
+                if cs:
+                    where.append(lf)
+                    ok = d_ is defer and len(cs) == 1 and len(bc) == 1 and \
+                        cfg.dominated_by(lf, cfg.pos_of(lf, bc[0]), lambda p, e, sp=cfg.pos_of(lf, cs[0]): p == sp)[0]
+                    r.check(ok, "build|setCurrentIteration-inside-transaction", "", "the epoch is written after buildComplete() has committed the build transaction: "
+                            "a kill between the two commits leaves results stamped with an epoch the database does not record", lf, cs[0])
+            if not where:
+                r.violation("build|setCurrentIteration-inside-transaction", "the current epoch is not written between buildStarted and the commit", f)
+        # the guard's destructor runs on every exit after registration: implicit-dtor element on each such path
+        dv = defer["vars"][0]["did"]
+        w = cfg.path_exists(f, dp, cfg.is_exit, avoid=lambda p, e: isinstance(e, dict) and e.get("x") == "dtor" and e.get("did") == dv)
+        r.check(w is None, "build|guard-runs-on-every-exit", "", "an exit after the guard was registered skips its destructor", f, defer)
+
+
+
+
 def run(ctx):
     prog, rep = ctx.prog, ctx.report
     db = DBModel(prog)
@@ -92,6 +154,21 @@ def run(ctx):
             mp = cfg.pos_of(g, m)
             ok = ok and cfg.dominated_by(g, mp, lambda p, e: p == bp)[0] and cfg.path_exists(g, ep, lambda p, e, mp=mp: p == mp) is None
     r.check(ok, "open|schema-in-one-transaction", "%d statements" % len(muts), "schema creation is not bracketed by BEGIN EXCLUSIVE … END", g)
+    # the build transaction itself: buildStarted answers `true` only after BEGIN EXCLUSIVE was executed (no early `true` for a build that
+    # was "already announced": every later build of the process would then run in autocommit mode); buildComplete ends it on every path
+    bs_ = prog.fn(DB + "::buildStarted")
+    bexec = [c for c in bs_.calls("sqlite3_exec") if (db.sql_text(bs_, arg_nodes(c)[1]) or "") and SQL.classify(db.sql_text(bs_, arg_nodes(c)[1])) == "txn-begin"]
+    if len(bexec) == 1:
+        bp = cfg.pos_of(bs_, bexec[0])
+        early = [x for x in bs_.nodes if x.get("k") == "return" and "e" in x and not (core(x.child("e")).get("k") == "bool" and core(x.child("e")).get("v") is False)
+                 and not cfg.dominated_by(bs_, cfg.pos_of(bs_, x), lambda p, e: p == bp)[0]]
+        r.check(not early, "buildStarted|true-only-after-begin", "", "buildStarted can report success without having begun the exclusive transaction", bs_, early[0] if early else None)
+    else:
+        r.violation("buildStarted|true-only-after-begin", "buildStarted executes %d BEGIN statements" % len(bexec), bs_)
+    bc_ = prog.fn(DB + "::buildComplete")
+    eexec = [c for c in bc_.calls("sqlite3_exec") if (db.sql_text(bc_, arg_nodes(c)[1]) or "") and SQL.classify(db.sql_text(bc_, arg_nodes(c)[1])) == "txn-end"]
+    ok = len(eexec) == 1 and cfg.must_pass_through(bc_, cfg.entry_pos(bc_), lambda p, e, ep=cfg.pos_of(bc_, eexec[0]) if eexec else None: p == ep)[0]
+    r.check(ok, "buildComplete|end-on-every-path", "", "buildComplete can return without ending the build transaction", bc_)
     # who calls the key insert
     cg = CallGraph(prog)
     callers = set(f.name.split("::")[-1] for f, c in cg.callers_of(DB + "::getKeyIDFromDB"))
@@ -110,59 +187,7 @@ def run(ctx):
             and wr.get("buildComplete") == {"build::defer"}, "engine|writer-callers", "", "database writers are called from %s" % wr)
     ex_callers = set(f.name.split("::")[-1] for f, c in cg.callers_of(E.ENGINE + "::executeTasks"))
     r.check(ex_callers == {"build"}, "engine|work-loop-only-from-build", "", "executeTasks called from %s" % sorted(ex_callers))
-    f = E.efn(prog, "build")
-    bf = BranchFacts(f, kill="assign")
-    bs = f.calls("BuildDB::buildStarted")
-    ex = f.calls(E.ENGINE + "::executeTasks")
-    sci = f.calls("BuildDB::setCurrentIteration")
-    if len(bs) != 1 or len(ex) != 1 or len(sci) > 1:
-        raise AnalysisBroken("build(): buildStarted=%d executeTasks=%d setCurrentIteration=%d" % (len(bs), len(ex), len(sci)))
-    # the defer that calls buildComplete
-    defer = None
-    for d in f.nodes:
-        if d.get("k") == "decl":
-            for v in d["vars"]:
-                if "ScopeDefer" in f.db_types[v["ct"]] and "init" in v:
-                    for x in f.nodes[v["init"]].walk():
-                        if x.get("k") == "lambda":
-                            lf = prog.lambda_fn(x)
-                            if lf is not None and lf.calls("BuildDB::buildComplete"):
-                                defer = d
-    r.check(defer is not None, "build|deferred-buildComplete", "", "no scope guard commits the transaction", f)
-    if defer is not None:
-        dp = cfg.pos_of(f, defer)
-        bsp = cfg.pos_of(f, bs[0])
-        # between a successful buildStarted and the registration of the guard there is no way out
-        legit = set()
-        for x in f.nodes:
-            if x.get("k") == "return" and any((a == "result" or "buildStarted(" in a) and not pol for a, pol in (bf.at_node(x) or frozenset())) and \
-                    cfg.path_exists(f, dp, lambda p, e, xp=cfg.pos_of(f, x): p == xp) is None:
-                legit.add(cfg.pos_of(f, x))       # `if (!result) return` right after buildStarted failed
-        w = cfg.path_exists_feasible(f, bsp, cfg.is_exit, avoid=lambda p, e: p == dp or p in legit)
-        ok = w is None and len(legit) == 1
-        r.check(ok, "build|guard-registered-right-after-start", "", "a path leaves build() after a successful buildStarted without the commit guard", f, defer,
-                path=str(w))
-        # the work loop and the epoch write happen under the guard
-        for c, nm in ((ex[0], "executeTasks"),) + (((sci[0], "setCurrentIteration"),) if sci else ()):
-            r.check(cfg.dominated_by(f, cfg.pos_of(f, c), lambda p, e: p == dp)[0], "build|%s-inside-transaction" % nm, "",
-                    "%s reachable outside the build transaction" % nm, f, c)
-        if not sci:
-            # the epoch write moved out of build()'s body: inside the transaction only if the commit guard performs it before buildComplete
-            where = []
-            for d_, lf in E.scope_guards(prog, f):
-                cs, bc = lf.calls("BuildDB::setCurrentIteration"), lf.calls("BuildDB::buildComplete")
-                if cs:
-                    where.append(lf)
-                    ok = d_ is defer and len(cs) == 1 and len(bc) == 1 and \
-                        cfg.dominated_by(lf, cfg.pos_of(lf, bc[0]), lambda p, e, sp=cfg.pos_of(lf, cs[0]): p == sp)[0]
-                    r.check(ok, "build|setCurrentIteration-inside-transaction", "", "the epoch is written after buildComplete() has committed the build transaction: "
-                            "a kill between the two commits leaves results stamped with an epoch the database does not record", lf, cs[0])
-            if not where:
-                r.violation("build|setCurrentIteration-inside-transaction", "the current epoch is not written between buildStarted and the commit", f)
-        # the guard's destructor runs on every exit after registration: implicit-dtor element on each such path
-        dv = defer["vars"][0]["did"]
-        w = cfg.path_exists(f, dp, cfg.is_exit, avoid=lambda p, e: isinstance(e, dict) and e.get("x") == "dtor" and e.get("did") == dv)
-        r.check(w is None, "build|guard-runs-on-every-exit", "", "an exit after the guard was registered skips its destructor", f, defer)
+    engine_txn_pairing(prog, r)
 
     E.r_epoch_persist(prog, rep)
 
@@ -287,4 +312,8 @@ VARIANTS = [
          edits=[("        ruleInfo->setPendingTaskInfo(nullptr);\n        ruleInfo->setComplete(this);\n\n        // Report the status change.", "        ruleInfo->setPendingTaskInfo(nullptr);\n\n        // Report the status change."),
                 ("        // Wake up all of the pending scan requests.\n        for (const auto& request: taskInfo->deferredScanRequests) {", "        ruleInfo->setComplete(this);\n        for (const auto& request: taskInfo->deferredScanRequests) {")],
          expect=("R-DISCOVERED-APPEND", "complete-before-db-write")),
+    dict(name="build-started-twice-tolerated", file="lib/Core/SQLiteBuildDB.cpp", old="    if (!open(error_out))\n      return false;\n\n    // Execute the entire build inside a single transaction.", new="    if (!open(error_out))\n      return false;\n    if (sqlite3_get_autocommit(db) == 0)\n      return true;\n\n    // Execute the entire build inside a single transaction.",
+         expect=("R-TXN-SCOPE", "true-only-after-begin")),
+    dict(name="end-only-when-not-autocommit", file="lib/Core/SQLiteBuildDB.cpp", old="    // Sync changes to disk.\n    int result = sqlite3_exec(db, \"END;\", nullptr, nullptr, nullptr);\n    assert(result == SQLITE_OK);\n    (void)result;",
+         new="    // Sync changes to disk.\n    if (db && getCurrentErrorMessage().empty()) {\n      int result = sqlite3_exec(db, \"END;\", nullptr, nullptr, nullptr);\n      (void)result;\n    }", expect=("R-TXN-SCOPE", "end-on-every-path")),
 ]
